@@ -587,3 +587,12 @@ def c08_k(ctx):
 def c08_l(ctx):
     from .base import inherited_dtype_obligation
     inherited_dtype_obligation(ctx)
+
+
+@obligation('C08-m', 'T3', 'the density operation receives the node value and its parents\' values '
+            'in declared order at execution time (shared with C03-d)', floor=3,
+            necessary='pdf(x, mu, sigma) called with its positional arguments in another order '
+                      'is the density of another distribution (location and scale swapped)')
+def c08_m(ctx):
+    from .C03 import c03_d
+    c03_d(ctx)
